@@ -68,8 +68,13 @@ def check(arg: tuple[dict[str, Any], dict[str, Any], int]) -> str | None:
 
     d, var, seed = arg
     dtype = DT[var['dtype']]
-    model, insts = trees.build(d['leaves'], seed, dtype)
-    inp = trees.inputs(seed, dtype)
+    # degenerate shapes (one sample, one output channel) make reshapes of
+    # transposed tensors views instead of copies
+    has_bn = any(lf['kind'] == 'bn' for lf in d['leaves'])
+    batch = (4, 1, 3, 1)[seed % 4] if not has_bn else (4, 2, 3, 2)[seed % 4]
+    conv_out = (2, 2, 1, 1)[(seed // 2) % 4]
+    model, insts = trees.build(d['leaves'], seed, dtype, conv_out)
+    inp = trees.inputs(seed, dtype, batch)
     skip = [trees.regex(p) for p in d['pats']]
 
     def fb(train: bool) -> tuple[torch.Tensor, dict]:
@@ -172,6 +177,9 @@ CHAIN_VARIANTS = [
     dict(param_dtype='float32', factor_dtype=None),
     dict(param_dtype='float32', factor_dtype='float64'),
     dict(param_dtype='float64', factor_dtype='float32'),
+    dict(param_dtype='float32', factor_dtype=None, batch=1),
+    dict(param_dtype='float64', factor_dtype='float64', inv_dtype='float64',
+         batch=1),
 ]
 
 
